@@ -229,7 +229,7 @@ pub fn exercise_with_deadline(text: &str) -> Result<Option<(String, String)>, St
             let _ = tx.send(exercise(&t));
         })
         .map_err(|e| e.to_string())?;
-    rx.recv_timeout(std::time::Duration::from_secs(90)).map_err(|_| "no answer within 90 s".to_string())
+    rx.recv_timeout(std::time::Duration::from_secs(45)).map_err(|_| "no answer within 45 s".to_string())
 }
 
 /// subprocess probe for sizes that may overflow the stack: `iwe-verif crash-probe <kind> <n>`
@@ -455,6 +455,10 @@ pub fn run(ctx: &Ctx, model: &mut Model, rep: &mut Report) {
                 gen::document(&mut r, &p)
             }
         };
+        // enough to report (every hang leaves a spinning thread behind and costs a deadline)
+        if !ctx.thorough && rep.impl_failures.len() >= 8 {
+            break;
+        }
         rep.case(&text, text.lines().count() >= 2);
         rep.count(["wf", "crlf", "soup", "soup", "wild"][i % 5]);
         if i == 2 {
